@@ -224,7 +224,8 @@ Lemma admit_cu_allowed c Q n s old :
    match old with None => True | Some o => qparent o <> qparent s \/ same_resources o s = false end ->
      validate_resources Q n s = VAllowed).
 Proof.
-  unfold admit_cu, admit_cu_with. destruct (spec_ok s); simpl; [|done]. intros H. split; [done|].
+  unfold admit_cu, admit_cu_with. destruct (spec_ok s); simpl; [|done].
+  destruct (state_ok _); simpl; [|done]. intros H. split; [done|].
   set (pc := match old with None => true | Some o => negb (bool_decide (qparent o = qparent s)) end) in *.
   assert (match old with None => True | Some o => qparent o <> qparent s end -> pc = true) as Hpc.
   { subst pc. destruct old; [|done]. intros Hne. by rewrite bool_decide_eq_false_2. }
@@ -273,19 +274,19 @@ Lemma root_inv_step c Q r :
 Proof.
   intros (sr & Hsr & Hpr). unfold apply_if_admitted.
   destruct (allowed (verdict_of c Q r)) eqn:Hv; [|by eauto]. apply allowed_eq in Hv.
-  destruct r as [n s|n s|n|n a]; simpl in *.
+  destruct r as [n s|n s|n|n a st]; simpl in *.
   - destruct (Q !! n) as [o|] eqn:Hn; [by eauto|].
     exists sr. rewrite lookup_insert_ne; [done|]. intros ->. congruence.
   - destruct (Q !! n) as [o|] eqn:Hn; [|by eauto].
     destruct (decide (n = root)) as [->|Hne]; [|exists sr; by rewrite lookup_insert_ne].
     rewrite Hsr in Hn. inversion Hn; subst o.
-    exists (with_alloc (qalloc sr) s). rewrite lookup_insert. split; [done|]. simpl.
+    exists (with_status (qalloc sr) (qstate sr) s). rewrite lookup_insert. split; [done|]. simpl.
     destruct (decide (qparent sr = qparent s)) as [Heq|Hne]; [congruence|].
     apply admit_cu_allowed in Hv as (_ & Hh & _). by apply (hier_root c Q), Hh.
   - apply admit_delete_allowed in Hv as (Hr & _). exists sr. by rewrite lookup_delete_ne.
   - destruct (Q !! n) as [o|] eqn:Hn; [|by eauto].
     destruct (decide (n = root)) as [->|Hne]; [|exists sr; by rewrite lookup_insert_ne].
-    rewrite Hsr in Hn. inversion Hn; subst o. exists (with_alloc a sr). by rewrite lookup_insert.
+    rewrite Hsr in Hn. inversion Hn; subst o. eexists. rewrite lookup_insert. split; [done|]. done.
 Qed.
 
 Lemma shape_step c Q r :
@@ -293,11 +294,11 @@ Lemma shape_step c Q r :
 Proof.
   intros Hmax [Hroot Hinv]. split; [by apply root_inv_step|]. unfold apply_if_admitted.
   destruct (allowed (verdict_of c Q r)) eqn:Hv; [|done]. apply allowed_eq in Hv.
-  destruct r as [n s|n s|n|n a]; simpl in *.
+  destruct r as [n s|n s|n|n a st]; simpl in *.
   - (* CREATE *)
     destruct (Q !! n) as [o|] eqn:Hn; [done|].
     apply admit_cu_allowed in Hv as (_ & Hh & _). specialize (Hh I).
-    destruct (hier_allowed c Q n s (with_alloc 0 s) Hh Hmax eq_refl) as (dn & Hdn & Hle & _).
+    destruct (hier_allowed c Q n s (with_status 0 0 s) Hh Hmax eq_refl) as (dn & Hdn & Hle & _).
     intros m sm Hm Hmr. destruct (decide (m = n)) as [->|Hne]; [by exists dn|].
     rewrite lookup_insert_ne in Hm by done.
     destruct (Hinv _ _ Hm Hmr) as (k & Hk & Hkle). exists k. split; [|done].
@@ -311,7 +312,7 @@ Proof.
     destruct (decide (qparent o = qparent s)) as [Heq|Hne].
     + exists k. split; [|done]. eapply reach_same_parent; eauto.
     + apply admit_cu_allowed in Hv as (_ & Hh & _). specialize (Hh Hne).
-      destruct (hier_allowed c Q n s (with_alloc (qalloc o) s) Hh Hmax eq_refl) as (dn & Hdn & Hle & Hcase).
+      destruct (hier_allowed c Q n s (with_status (qalloc o) (qstate o) s) Hh Hmax eq_refl) as (dn & Hdn & Hle & Hcase).
       destruct Hcase as [[_ ->]|Hbelow].
       * destruct (reach_reparent_top _ _ _ _ _ Hdn Hk) as (k' & Hk' & Hle'). exists k'. split; [done|lia].
       * destruct (reach_reparent _ _ _ _ _ _ Hdn Hk) as [Hk'|(j & Hb & Hk')].
@@ -423,14 +424,14 @@ Proof.
     destruct (qdes s !! d) as [x|]; [|done]. apply bool_decide_eq_true in Hg. eauto.
 Qed.
 
-Lemma QueueOk_with_alloc a s : QueueOk s -> QueueOk (with_alloc a s).
+Lemma QueueOk_with_alloc a st s : QueueOk s -> QueueOk (with_status a st s).
 Proof. done. Qed.
 
 Lemma per_queue_step c Q r : PerQueueInv Q -> PerQueueInv (apply_if_admitted c Q r).
 Proof.
   intros Hinv. unfold apply_if_admitted.
   destruct (allowed (verdict_of c Q r)) eqn:Hv; [|done]. apply allowed_eq in Hv.
-  destruct r as [n s|n s|n|n a]; simpl in *.
+  destruct r as [n s|n s|n|n a st]; simpl in *.
   - destruct (Q !! n) eqn:Hn; [done|]. apply admit_cu_allowed in Hv as (Hs & _).
     intros m sm Hm. apply lookup_insert_Some in Hm as [[_ <-]|[_ Hm]]; [|by eapply Hinv].
     by apply QueueOk_with_alloc, spec_ok_QueueOk.
@@ -807,12 +808,12 @@ Proof.
   pose proof (shape_step c Q r Hmax Hshape) as Hshape'.
   unfold apply_if_admitted in *.
   destruct (allowed (verdict_of c Q r)) eqn:Hv; [|done]. apply allowed_eq in Hv.
-  destruct r as [n s|n s|n|n a]; simpl in *.
+  destruct r as [n s|n s|n|n a st]; simpl in *.
   - destruct (Q !! n) as [o|] eqn:Hn; [done|].
-    eapply (cu_sum c Q n s (with_alloc 0 s) None); eauto.
+    eapply (cu_sum c Q n s (with_status 0 0 s) None); eauto.
     exact (root_parent_none c Q n s None Hshape Hn Hv).
   - destruct (Q !! n) as [o|] eqn:Hn; [|done].
-    eapply (cu_sum c Q n s (with_alloc (qalloc o) s) (Some o)); eauto.
+    eapply (cu_sum c Q n s (with_status (qalloc o) (qstate o) s) (Some o)); eauto.
     exact (root_parent_none c Q n s (Some o) Hshape Hn Hv).
   - destruct Hsum as [Hg Hd]. split; apply sumF_delete; try done.
     + intros m sm d Hm. by destruct (QueueOk_nonneg sm (Hper _ _ Hm) d) as (_ & _ & ?).
@@ -1314,11 +1315,11 @@ Proof.
   pose proof (shape_step c Q r Hmax Hshape) as Hshape'.
   unfold apply_if_admitted in *.
   destruct (allowed (verdict_of c Q r)) eqn:Hv; [|done]. apply allowed_eq in Hv.
-  destruct r as [n s|n s|n|n a]; simpl in *.
+  destruct r as [n s|n s|n|n a st]; simpl in *.
   - destruct (Q !! n) as [o|] eqn:Hn; [done|].
-    eapply (cu_cap c Q n s (with_alloc 0 s) None); eauto.
+    eapply (cu_cap c Q n s (with_status 0 0 s) None); eauto.
   - destruct (Q !! n) as [o|] eqn:Hn; [|done].
-    eapply (cu_cap c Q n s (with_alloc (qalloc o) s) (Some o)); eauto.
+    eapply (cu_cap c Q n s (with_status (qalloc o) (qstate o) s) (Some o)); eauto.
   - by apply cap_delete.
   - destruct (Q !! n) as [o|] eqn:Hn; [|done]. eapply cap_agree; eauto.
 Qed.
@@ -1369,6 +1370,16 @@ Proof.
   apply IH; [done|]. by apply tree_step.
 Qed.
 
+(* Status (allocated pods, state Open / Closed / Closing / Unknown) is no part of any clause:
+   whatever a status update writes, the invariant stays (children count in the sums whatever
+   their state) *)
+Corollary tree_status_update c Q n a st :
+  1 <= max_depth c -> TreeInv c Q -> TreeInv c (apply_req Q (EnvStatus n a st)).
+Proof.
+  intros Hmax H. pose proof (tree_step c Q (EnvStatus n a st) Hmax H) as Hs.
+  unfold apply_if_admitted in Hs. simpl in *. destruct (Q !! n); simpl in Hs; done.
+Qed.
+
 Lemma tree_okb_sound c Q : tree_okb c Q = true -> TreeInv c Q.
 Proof.
   unfold tree_okb. rewrite !andb_true_iff. intros [[[Hs Hp] Hsum] Hcap].
@@ -1380,7 +1391,7 @@ Qed.
 
 Definition cpu_l (v : Z) : list (positive * Z) := [(cpu_d, v)].
 Definition q_ (p : option positive) (c d g : list (positive * Z)) : qspec :=
-  mkQ p 0 (list_to_map c) (list_to_map d) (list_to_map g).
+  mkQ p 0 0 (list_to_map c) (list_to_map d) (list_to_map g).
 
 (* root <- 3 (cpu cap 8000, deserved 6000, guarantee 4000) <- 4 <- 5 ; default *)
 Definition ex_cfg : cfg := mkCfg 5 true true.
@@ -1396,7 +1407,11 @@ Proof. apply tree_okb_sound. by vm_compute. Qed.
 (* a history over it in which requests of every kind are admitted and others are refused *)
 Definition ex_history : list req :=
   [Create 6 (q_ (Some 3) (cpu_l 2000%Z) (cpu_l 2000%Z) (cpu_l 2000%Z));     (* fits exactly next to 4 *)
-   Create 7 (q_ (Some 3) [] (cpu_l 1000%Z) (cpu_l 1000%Z));              (* refused: guarantee sum 5000 > 4000 *)
+   EnvStatus 4 (-1)%Z 2%Z;                                           (* the queue controller closes 4 *)
+   Create 7 (q_ (Some 3) [] (cpu_l 1000%Z) (cpu_l 1000%Z));              (* refused: guarantee sum 5000 > 4000, closed or not *)
+   EnvStatus 4 (-1)%Z 3%Z;                                           (* ... 4 is Closing *)
+   Update 4 (q_ (Some 3) (cpu_l 4000%Z) (cpu_l 3000%Z) (cpu_l 1000%Z));    (* refused: the object carries state Closing *)
+   EnvStatus 4 (-1)%Z 1%Z;                                           (* open again *)
    Update 5 (q_ (Some 6) [] (cpu_l 1000%Z) (cpu_l 1000%Z));              (* re-parent the leaf 5 under 6 *)
    Update 3 (q_ (Some 5) (cpu_l 8000%Z) (cpu_l 6000%Z) (cpu_l 4000%Z));     (* refused: under its own descendant *)
    Update 1 (q_ (Some 3) [] [] []);                                 (* refused: root cannot have a parent *)
@@ -1408,7 +1423,8 @@ Definition ex_history : list req :=
 
 Example ex_history_verdicts :
   verdicts ex_cfg ex_Q ex_history =
-  [VAllowed; VSiblingSum; VAllowed; VCycle; VRootParent; VAllowed; VAllowed; VCapAncestor; VAllowed; VDelChildren].
+  [VAllowed; VAllowed; VSiblingSum; VAllowed; VSpec; VAllowed; VAllowed; VCycle; VRootParent; VAllowed; VAllowed;
+   VCapAncestor; VAllowed; VDelChildren].
 Proof. by vm_compute. Qed.
 
 (* F3, first half: the validation as it was before the fix admits a.parent := c on
